@@ -109,7 +109,8 @@ Definition holds (f : facts) (m : meshgl) (s : st) : Prop :=
   (fMergeGe f = true -> Forall (fun ft => vert_ok m (snd ft)) (p2v s)) /\
   (fTriDone f = true -> Forall (fun t => Forall (vert_ok m) (fst t) /\ Forall (vert_ok m) (snd t) /\
                                          length (fst t) = length (snd t)) (kept s)) /\
-  (fMergeGe f = false -> p2v s = []).
+  (fMergeGe f = false -> p2v s = []) /\
+  (fTriDone f = true -> zlen (kept s) <= numTriI m).
 
 Lemma holds0 : forall m, holds facts0 m (st0 m).
 Proof. intros m. unfold holds, facts0; cbn. repeat split; intros; try discriminate; reflexivity. Qed.
@@ -255,6 +256,19 @@ Proof.
     + inversion H; subst. split; [exact Ha0 | exact Hk].
 Qed.
 
+Lemma tri_loop_len : forall c m s fuel i k fired k' a,
+  tri_loop c m s i fuel k = (fired, k', a) -> zlen k' <= zlen k + Z.of_nat fuel.
+Proof.
+  intros c m s fuel. induction fuel as [|fuel IH]; intros i k fired k' a H.
+  - cbn in H. injection H as _ E _. subst k'. lia.
+  - cbn [tri_loop] in H. destruct (corners c m s i [0; 1; 2]) as [r a0].
+    destruct r as [[ps vs]|].
+    + destruct (tri_loop c m s (i + 1) fuel (if nondegenerate vs then (ps, vs) :: k else k)) as [[fi kk] a'] eqn:Er.
+      injection H as _ E _. subst k'. apply IH in Er.
+      destruct (nondegenerate vs); [unfold zlen in *; cbn [length] in Er; lia | lia].
+    + injection H as _ E _. subst k'. lia.
+Qed.
+
 Lemma run_accesses_ok : forall m s i,
   small m -> wf m ->
   zlen (ri s) = nRuns m + 1 -> hd 0 (ri s) = 0 -> last (ri s) 0 = runEnd m -> sortedb (ri s) = true ->
@@ -329,14 +343,14 @@ Qed.
 (* ---------- one step ---------- *)
 Ltac splits := repeat match goal with |- _ /\ _ => split end.
 
-Lemma step_sound : forall it f m o s oe s' a,
-  wf m -> small m -> nFaceSort o <= numTriI m ->
-  needs f it = true -> holds f m s -> step it m o s = (oe, s', a) ->
+Lemma step_sound : forall (strong : bool) it f m o s oe s' a,
+  wf m -> small m -> (if strong then 0 <= nFaceSort o else nFaceSort o <= numTriI m) ->
+  needs strong f it = true -> holds f m s -> step it m o s = (oe, s', a) ->
   Forall in_bounds a /\ (oe = None -> holds (learn f it) m s').
 Proof.
-  intros it f m o s oe s' a Hwf Hs Ho Hneed Hh Hstep.
-  destruct Hh as [HNP [HML [HTL [HFL [HTA [HSH [HMG [HTD HPE]]]]]]]].
-  destruct it as [r e | | c e | | | | | c e | e | ]; cbn [step] in Hstep.
+  intros strong it f m o s oe s' a Hwf Hs Ho Hneed Hh Hstep.
+  destruct Hh as [HNP [HML [HTL [HFL [HTA [HSH [HMG [HTD [HPE HKL]]]]]]]]].
+  destruct it as [r e | | c e | | | | | c e | e | kp | e]; cbn [step] in Hstep.
   - (* IRung *)
     injection Hstep as E1 E2 E3; subst. split; [constructor|]. intros Hn.
     destruct (cond r m s') eqn:Ec; [discriminate|].
@@ -401,47 +415,58 @@ Proof.
     destruct (tri_loop CGe m s 0 (Z.to_nat (numTri m)) []) as [[fired k] a0] eqn:Et.
     injection Hstep as E1 E2 E3; subst.
     destruct (numTriI_small m Hs) as [Eq Hr]. pose proof (numTri_small m Hs) as Ent.
+    pose proof (tri_loop_len _ _ _ _ _ _ _ _ _ Et) as Hlen.
     apply tri_loop_ok in Et; [| exact HMG' | lia | rewrite Ent; lia | | constructor].
     + destruct Et as [Ha Hk]. split; [exact Ha|]. intros _.
-      unfold holds; cbn [learn]; cbn [fNumProp fMergeLen fTransLen fFaceLen fTanLen fNorm fShape fMergeGe fTriDone ri p2v p2vOn kept]. splits; try assumption. intros _. exact Hk.
+      unfold holds; cbn [learn]; cbn [fNumProp fMergeLen fTransLen fFaceLen fTanLen fNorm fShape fMergeGe fTriDone ri p2v p2vOn kept]. splits; try assumption.
+      * intros _. exact Hk.
+      * intros _. change (zlen (@nil (list Z * list Z))) with 0 in Hlen. rewrite Ent in Hlen. lia.
     + rewrite Eq. apply Z.mul_div_le. lia.
   - (* ICreateHalfedges *)
     injection Hstep as E1 E2 E3; subst. split; [constructor|]. intros _. unfold holds; cbn [learn]. tauto.
   - (* IPost *)
     injection Hstep as E1 E2 E3; subst. cbn [needs] in Hneed.
+    apply andb_true_iff in Hneed. destruct Hneed as [Hneed Hkp].
     apply andb_true_iff in Hneed. destruct Hneed as [Hneed Hnp].
     apply andb_true_iff in Hneed. destruct Hneed as [Hta Htd].
-    specialize (HNP Hnp). specialize (HTA Hta). specialize (HTD Htd). split.
+    specialize (HNP Hnp). specialize (HTA Hta). pose proof (HTD Htd) as HTD'. specialize (HKL Htd). split.
     + unfold post_accesses. apply Forall_app. split.
-      * apply Forall_flat_map_intro. intros t Ht. rewrite Forall_forall in HTD.
-        destruct (HTD t Ht) as [Hp [Hv _]].
+      * apply Forall_flat_map_intro. intros t Ht. rewrite Forall_forall in HTD'.
+        destruct (HTD' t Ht) as [Hp [Hv _]].
         apply Forall_flat_map_intro. intros pv Hpv.
         pose proof (Forall_combine_ok m _ _ Hp Hv) as Hc. rewrite Forall_forall in Hc.
         destruct (Hc pv Hpv). apply corner_accesses_ok; assumption.
       * destruct (tanLen m / 4 =? 0) eqn:E4; [constructor|]. apply Z.eqb_neq in E4.
         constructor; [|constructor]. cbn [in_bounds]. intros Hlt. split; [lia|].
         destruct (numTriI_small m Hs) as [Eq _].
-        destruct HTA as [HTA | HTA].
-        -- rewrite HTA in E4. cbn in E4. congruence.
-        -- rewrite HTA.
-           replace (4 * runEnd m / 4) with (runEnd m)
-             by (symmetry; rewrite Z.mul_comm; apply Z.div_mul; lia).
-           assert (3 * numTriI m <= runEnd m).
-           { rewrite Eq. unfold runEnd. apply Z.mul_div_le. lia. }
-           lia.
+        assert (HT : 3 * numTriI m <= tanLen m / 4).
+        { destruct HTA as [HTA | HTA]; [rewrite HTA in E4; cbn in E4; congruence|].
+          rewrite HTA.
+          replace (4 * runEnd m / 4) with (runEnd m)
+            by (symmetry; rewrite Z.mul_comm; apply Z.div_mul; lia).
+          rewrite Eq. unfold runEnd. apply Z.mul_div_le. lia. }
+        unfold tangents_at_sort.
+        destruct (kp && (zlen (kept s') <? nFaceSort o)) eqn:Ek; [lia|].
+        apply andb_false_iff in Ek. destruct strong.
+        -- (* strong: DedupeEdge keeps the tangents; no face was added here *)
+           cbn [negb orb] in Hkp. subst kp. destruct Ek as [Ek | Ek]; [discriminate|].
+           apply Z.ltb_ge in Ek. lia.
+        -- lia.
     + intros _. unfold holds; cbn [learn]. tauto.
+  - (* ICancelGate *)
+    injection Hstep as E1 E2 E3; subst. split; [constructor|]. intros _. unfold holds; cbn [learn]. tauto.
 Qed.
 
 (* ---------- the table ---------- *)
-Lemma safe_run : forall t f m o s,
-  wf m -> small m -> nFaceSort o <= numTriI m ->
-  safe_from f t = true -> holds f m s -> Forall in_bounds (snd (run t m o s)).
+Lemma safe_run : forall (strong : bool) t f m o s,
+  wf m -> small m -> (if strong then 0 <= nFaceSort o else nFaceSort o <= numTriI m) ->
+  safe_from strong f t = true -> holds f m s -> Forall in_bounds (snd (run t m o s)).
 Proof.
-  induction t as [|it t IH]; intros f m o s Hwf Hs Ho Hsafe Hh.
+  intros strong. induction t as [|it t IH]; intros f m o s Hwf Hs Ho Hsafe Hh.
   - constructor.
   - cbn [safe_from] in Hsafe. apply andb_true_iff in Hsafe. destruct Hsafe as [Hn Hsafe].
     cbn [run]. destruct (step it m o s) as [[oe s'] a] eqn:Est.
-    destruct (step_sound it f m o s oe s' a Hwf Hs Ho Hn Hh Est) as [Ha Hnext].
+    destruct (step_sound strong it f m o s oe s' a Hwf Hs Ho Hn Hh Est) as [Ha Hnext].
     destruct oe as [e|].
     + exact Ha.
     + specialize (IH (learn f it) m o s' Hwf Hs Ho Hsafe (Hnext eq_refl)).
@@ -453,8 +478,30 @@ Lemma table_safe_in_bounds : forall t m o,
   ladder_table_safe t = true -> Forall in_bounds (accesses t m o).
 Proof.
   intros t m o Hwf Hs Ho Hsafe. unfold accesses.
-  apply (safe_run t facts0 m o (st0 m) Hwf Hs Ho Hsafe (holds0 m)).
+  apply (safe_run false t facts0 m o (st0 m) Hwf Hs Ho Hsafe (holds0 m)).
 Qed.
+
+Lemma table_safe_strong_in_bounds : forall t m o,
+  wf m -> small m -> 0 <= nFaceSort o ->
+  ladder_table_safe_strong t = true -> Forall in_bounds (accesses t m o).
+Proof.
+  intros t m o Hwf Hs Ho Hsafe. unfold accesses.
+  apply (safe_run true t facts0 m o (st0 m) Hwf Hs Ho Hsafe (holds0 m)).
+Qed.
+
+Lemma patched14_table_safe_strong : ladder_table_safe_strong patched14_table = true.
+Proof. vm_compute. reflexivity. Qed.
+
+(* without fix 14 the face-count hypothesis is needed: a torus whose DedupeEdge adds 6 faces *)
+Lemma torus_refuted :
+  ladder_table_safe patched_table = true /\ ladder_table_safe_strong patched_table = false /\
+  ladder patched_table w_torus o_torus = Accepted /\ numTriI w_torus = 12 /\
+  first_oob (accesses patched_table w_torus o_torus) = Some (AccRange ATangentInternal 0 54 36) /\
+  first_oob (accesses patched14_table w_torus o_torus) = None.
+Proof. repeat split; vm_compute; reflexivity. Qed.
+
+Lemma cancel_first : forall t m o e, cancelled o = true -> ladder (ICancelGate e :: t) m o = Done e.
+Proof. intros t m o e H. unfold ladder. cbn [run step]. rewrite H. reflexivity. Qed.
 
 Lemma patched_table_safe : ladder_table_safe patched_table = true.
 Proof. vm_compute. reflexivity. Qed.
